@@ -45,7 +45,7 @@ class TxnFaults:
 
     def classify(self, k, f):
         if isinstance(f, tuple):
-            if f[1] in ABORTABLE.get(k, ()):
+            if f[1] in ABORTABLE.get(k, ()) or (k == 10 and f[1] == 30):
                 return "abortable"
             if f[1] in FATAL.get(k, ()):
                 return "fatal"
@@ -61,6 +61,9 @@ class TxnFaults:
         if self.seen > self.max_requests or self.used >= self.max_faults:
             return None
         menu = self.menu(k)
+        if k == 10 and "abortable" in self.kinds and getattr(req, "coordinator_type", getattr(req, "key_type", 1)) == 0:
+            # looking up the *group* coordinator (send_offsets_to_transaction): GROUP_AUTHORIZATION_FAILED
+            menu = menu + [("error", 30)]
         if len(menu) == 1:
             return None
         f = menu[self.src.choice(f"tfault{self.seen}", len(menu))]
